@@ -73,6 +73,7 @@ int kalign_run(struct msa *msa, int n_threads, int type, float gpo, float gpe, f
 {
         struct aln_tasks* tasks = NULL;
         struct aln_param* ap = NULL;
+        int sorted = 0;
         /* This also adds the ranks of the sequences !  */
         RUN(kalign_essential_input_check(msa, 0));
 
@@ -82,6 +83,7 @@ int kalign_run(struct msa *msa, int n_threads, int type, float gpo, float gpe, f
         }
         /* Make sure sequences are in order  */
         RUN(msa_sort_len_name(msa));
+        sorted = 1;
 
         /* Convert into internal representation  */
         if(msa->biotype == ALN_BIOTYPE_DNA){
@@ -164,6 +166,11 @@ int kalign_run(struct msa *msa, int n_threads, int type, float gpo, float gpe, f
         free_tasks(tasks);
         return OK;
 ERROR:
+        if(sorted){
+                /* a failed run must leave the sequences in input order: the next
+                   call takes the order it finds as the input order */
+                msa_sort_rank(msa);
+        }
         aln_param_free(ap);
         free_tasks(tasks);
         return FAIL;
